@@ -23,8 +23,14 @@ pub enum Src {
     Recv,
     /// selective receive: a filter function accepting only messages whose tag is `k`
     RecvTag(u64),
+    /// type-only receive of ONE message type: class A (`false`, tags < CLASS_B, `[tag, seq]`) or
+    /// class B (`true`, tags >= CLASS_B, `B[tag, seq]`); messages of the other type are passed over
+    RecvCls(bool),
     Timeout(u64),
 }
+
+/// messages with a tag >= CLASS_B are sent as the named tuple `B[tag, seq]` (another message TYPE)
+pub const CLASS_B: u64 = 100;
 
 #[derive(Clone, Debug, PartialEq, Eq, Hash)]
 pub enum Act {
@@ -74,6 +80,8 @@ impl Scenario {
                                 Src::Proc(r) => s.push_str(&format!("(proc {r})")),
                                 Src::Recv => s.push_str("(recv any)"),
                                 Src::RecvTag(k) => s.push_str(&format!("(recv tag {k})")),
+                                Src::RecvCls(false) => s.push_str(&format!("(recv range 0 {CLASS_B})")),
+                                Src::RecvCls(true) => s.push_str(&format!("(recv range {CLASS_B} 1000000)")),
                                 Src::Timeout(ms) => s.push_str(&format!("(timeout {ms})")),
                             }
                         }
@@ -102,7 +110,13 @@ impl Scenario {
         })
     }
 
+    /// some message of the second type is sent somewhere: plain receives take both types
+    pub fn has_b(&self) -> bool {
+        self.scripts.iter().flatten().any(|a| matches!(a, Act::Send { tag, .. } if *tag >= CLASS_B))
+    }
+
     fn body(&self, i: usize, mut regs: Vec<String>) -> String {
+        let mixed = self.has_b();
         let mut parts: Vec<String> = vec![];
         if self.uses_self(i) {
             parts.push(format!("me{i} = &."));
@@ -111,7 +125,13 @@ impl Scenario {
         let mut failed = false;
         for a in &self.scripts[i] {
             match a {
-                Act::Send { reg, tag, seq } => parts.push(format!("[{tag}, {seq}] {}", regs[*reg])),
+                Act::Send { reg, tag, seq } => {
+                    if *tag >= CLASS_B {
+                        parts.push(format!("B[{tag}, {seq}] {}", regs[*reg]))
+                    } else {
+                        parts.push(format!("[{tag}, {seq}] {}", regs[*reg]))
+                    }
+                }
                 Act::Spawn { f, pass } => {
                     let mut child_regs = vec![format!("me{f}")];
                     for r in pass {
@@ -126,8 +146,12 @@ impl Scenario {
                         .iter()
                         .map(|s| match s {
                             Src::Proc(r) => regs[*r].clone(),
+                            Src::Recv if mixed => "#(['int, 'int] | B['int, 'int])".to_string(),
                             Src::Recv => "#['int, 'int]".to_string(),
+                            Src::RecvTag(k) if *k >= CLASS_B => format!("#B['int, 'int] {{ =B[{k}, x] => Ok }}"),
                             Src::RecvTag(k) => format!("#['int, 'int] {{ =[{k}, x] => Ok }}"),
+                            Src::RecvCls(false) => "#['int, 'int]".to_string(),
+                            Src::RecvCls(true) => "#B['int, 'int]".to_string(),
                             Src::Timeout(ms) => ms.to_string(),
                         })
                         .collect();
@@ -231,7 +255,9 @@ pub fn parse_scripts(s: &str) -> Option<Vec<Vec<Act>>> {
                                 match h.as_str() {
                                     "proc" => ss.push(Src::Proc(num(&it[1])? as usize)),
                                     "recv" => {
-                                        if it.len() >= 3 {
+                                        if it.len() >= 4 {
+                                            ss.push(Src::RecvCls(num(&it[2])? >= CLASS_B))
+                                        } else if it.len() >= 3 {
                                             ss.push(Src::RecvTag(num(&it[2])?))
                                         } else {
                                             ss.push(Src::Recv)
@@ -466,6 +492,8 @@ pub struct Lock<'a> {
     /// lost wake-up / stuck spawner observations: (step, description)
     pub oracle_failures: Vec<(usize, String, String)>,
     pub quiescent_checks: usize,
+    /// the scenario sends two message types (`Scenario::has_b`)
+    pub mixed: bool,
 }
 
 impl<'a> Lock<'a> {
@@ -482,6 +510,7 @@ impl<'a> Lock<'a> {
             attempts: 0,
             partial_steps: 0,
             oracle_failures: vec![],
+            mixed: false,
             quiescent_checks: 0,
         }
     }
@@ -653,7 +682,10 @@ impl<'a> Lock<'a> {
                         Value::Function(fidx, _) => {
                             let body_empty = ex.get_function(*fidx).map(|f| f.instructions.is_empty()).unwrap_or(true);
                             if body_empty {
-                                !p.mailbox.is_empty()
+                                // type-only receive; with two message types in play the type it
+                                // takes is not visible here: certainly ready only if both are queued
+                                let has = |b: bool| p.mailbox.iter().any(|m| msg_pair(m).map(|(t, _)| (t >= CLASS_B) == b).unwrap_or(false));
+                                if self.mixed { has(false) && has(true) } else { !p.mailbox.is_empty() }
                             } else {
                                 // tag filter `=[k, x] => Ok`: k is the first integer constant of the body
                                 let k = ex.get_function(*fidx).and_then(|f| {
